@@ -170,7 +170,12 @@ template <typename OS, typename OD> static std::string run_op(std::vector<std::s
 #endif
             gil::fill_pixels(dst, OD::enc(arg));
         }
-        else if (alg == "equal") extra = std::string(" eq=") + (gil::equal_pixels(src, dst) ? "1" : "0");
+        else if (alg == "equal") {
+#ifdef C04_NO_PLANAR_EQUAL
+            if constexpr (std::is_same<OD, OrgT<1>>::value) { out = "err:no-compile"; return; } else
+#endif
+            extra = std::string(" eq=") + (gil::equal_pixels(src, dst) ? "1" : "0");
+        }
         else if (alg == "foreach") {
             gil::for_each_pixel(dst, [&](auto& p) { long v = OD::dec(p); log.push_back(v); p = OD::enc((v + arg) % OD::RANGE); });
         }
